@@ -52,7 +52,19 @@ type info struct {
 	parent   *info        // the enclosing struct value (nil for the root)
 	required bool         // a statement, expression, binding or identifier node
 	byValue  bool         // held by value in its parent (Walk may hand over a copy)
-	str      string
+	val      fmt.Stringer // the node, for its text (computed when it is needed: String() of a deep tree is not cheap)
+	text     *string
+}
+
+func (in *info) str() string {
+	if in.text == nil {
+		s := ""
+		if in.val != nil {
+			s = in.val.String()
+		}
+		in.text = &s
+	}
+	return *in.text
 }
 
 type occKey struct {
@@ -84,7 +96,7 @@ func (tr *truth) visit(v reflect.Value, parent *info, byValue bool) {
 			// a node stored by value inside an interface (DotExpr.Y holds a LiteralExpr): it has no address, Walk hands over a copy
 			in := &info{typ: e.Type(), parent: parent, byValue: true, required: isNodeType(e.Type())}
 			if s, ok := e.Interface().(fmt.Stringer); ok {
-				in.str = s.String()
+				in.val = s
 			}
 			tr.order = append(tr.order, in)
 			// what it refers to (pointers, interfaces and slices in its fields) is part of the tree all the same
@@ -108,7 +120,7 @@ func (tr *truth) visit(v reflect.Value, parent *info, byValue bool) {
 		in := &info{addr: addr, typ: v.Type(), parent: parent, byValue: byValue, required: isNodeType(v.Type()) && !zero}
 		if in.required {
 			if s, ok := v.Addr().Interface().(fmt.Stringer); ok {
-				in.str = s.String()
+				in.val = s
 			}
 		}
 		k := occKey{addr, v.Type()}
@@ -158,9 +170,16 @@ type event struct {
 	enter   bool
 	addr    uintptr
 	typ     reflect.Type
-	str     string
+	n       js.INode
 	visitor int
 	isPtr   bool
+}
+
+func (e event) str() string {
+	if e.n == nil {
+		return ""
+	}
+	return e.n.String()
 }
 
 type recorder struct {
@@ -193,7 +212,7 @@ func (r *recorder) Enter(n js.INode) js.IVisitor {
 	if prune {
 		vis = -1
 	}
-	*r.log = append(*r.log, event{true, addr, typ, n.String(), vis, isPtr})
+	*r.log = append(*r.log, event{true, addr, typ, n, vis, isPtr})
 	if prune {
 		return nil
 	}
@@ -202,7 +221,7 @@ func (r *recorder) Enter(n js.INode) js.IVisitor {
 
 func (r *recorder) Exit(n js.INode) {
 	addr, typ, isPtr := nodeKey(n)
-	*r.log = append(*r.log, event{false, addr, typ, "", r.id, isPtr})
+	*r.log = append(*r.log, event{false, addr, typ, nil, r.id, isPtr})
 }
 
 // checkWalk runs Walk with the policy and validates the event log against the reflection ground truth
@@ -228,10 +247,10 @@ func checkWalk(t fataler, src string, ast *js.AST, policy func(n js.INode, index
 			}
 			top := stack[len(stack)-1]
 			if top.ev.addr != e.addr || top.ev.typ != e.typ {
-				t.Fatalf("%q: Exit(%v) while the innermost open node is %v %q", src, e.typ, top.ev.typ, top.ev.str)
+				t.Fatalf("%q: Exit(%v) while the innermost open node is %v %q", src, e.typ, top.ev.typ, top.ev.str())
 			}
 			if top.ev.visitor != e.visitor {
-				t.Fatalf("%q: Exit(%v %q) is called on visitor %d, Enter returned visitor %d", src, e.typ, top.ev.str, e.visitor, top.ev.visitor)
+				t.Fatalf("%q: Exit(%v %q) is called on visitor %d, Enter returned visitor %d", src, e.typ, top.ev.str(), e.visitor, top.ev.visitor)
 			}
 			stack = stack[:len(stack)-1]
 			continue
@@ -261,12 +280,12 @@ func checkWalk(t fataler, src string, ast *js.AST, policy func(n js.INode, index
 				}
 			}
 			if node == nil {
-				t.Fatalf("%q: Enter(%v %q) although every occurrence of this node below the open node has been entered already (or it is not part of the tree)", src, e.typ, e.str)
+				t.Fatalf("%q: Enter(%v %q) although every occurrence of this node below the open node has been entered already (or it is not part of the tree)", src, e.typ, e.str())
 			}
 		} else if e.isPtr {
 			node = tr.find(e.addr, e.typ)
 			if node == nil {
-				t.Fatalf("%q: Enter(%v %q) for a node that is not part of the tree", src, e.typ, e.str)
+				t.Fatalf("%q: Enter(%v %q) for a node that is not part of the tree", src, e.typ, e.str())
 			}
 		} else {
 			// a copy of a node held by value: it must be a by-value child of the innermost open node
@@ -274,28 +293,28 @@ func checkWalk(t fataler, src string, ast *js.AST, policy func(n js.INode, index
 				t.Fatalf("%q: Enter with a value node %v at the root", src, e.typ)
 			}
 			for _, in := range tr.order {
-				if in.typ == e.typ && in.byValue && in.parent == stack[len(stack)-1].node && in.str == e.str && enteredBy[in] == 0 {
+				if in.typ == e.typ && in.byValue && in.parent == stack[len(stack)-1].node && in.str() == e.str() && enteredBy[in] == 0 {
 					node = in
 					break
 				}
 			}
 			if node == nil {
-				t.Fatalf("%q: Enter with a copy of %v %q, which is not a child of the open node %v", src, e.typ, e.str, stack[len(stack)-1].ev.typ)
+				t.Fatalf("%q: Enter with a copy of %v %q, which is not a child of the open node %v", src, e.typ, e.str(), stack[len(stack)-1].ev.typ)
 			}
 		}
 		enteredBy[node]++
 		if enteredBy[node] > 1 {
-			t.Fatalf("%q: %v %q is entered %d times", src, e.typ, e.str, enteredBy[node])
+			t.Fatalf("%q: %v %q is entered %d times", src, e.typ, e.str(), enteredBy[node])
 		}
 		if len(stack) > 0 {
 			parent := stack[len(stack)-1].node
 			if !tr.isAncestor(parent, node) {
-				t.Fatalf("%q: %v %q is entered while %v %q is open, which does not contain it", src, e.typ, e.str, parent.typ, parent.str)
+				t.Fatalf("%q: %v %q is entered while %v %q is open, which does not contain it", src, e.typ, e.str(), parent.typ, parent.str())
 			}
 		}
 		for p := range pruned {
 			if tr.isAncestor(p, node) {
-				t.Fatalf("%q: %v %q is entered although Enter returned nil for its ancestor %v %q", src, e.typ, e.str, p.typ, p.str)
+				t.Fatalf("%q: %v %q is entered although Enter returned nil for its ancestor %v %q", src, e.typ, e.str(), p.typ, p.str())
 			}
 		}
 		if e.visitor == -1 {
@@ -319,7 +338,7 @@ func checkWalk(t fataler, src string, ast *js.AST, policy func(n js.INode, index
 			}
 		}
 		if !below {
-			t.Fatalf("%q: the %v node %q is part of the tree but was never passed to Enter", src, in.typ, in.str)
+			t.Fatalf("%q: the %v node %q is part of the tree but was never passed to Enter", src, in.typ, in.str())
 		}
 	}
 	return len(enteredBy), types
